@@ -204,7 +204,7 @@ def run(ctx):
             # rule directory) finds folders of categories it does not produce itself
             pws = ['1qaz2wsx', 'zaq1!@#', 'pass1999', '#1love', '$$$', 'Ab12!'] + pws
         elif rep == 1:
-            pws = ['password', 'hello', 'abc', 'Summer', 'password']
+            pws = ['password', 'hello', 'abc', 'Summer', 'password', 'пароль', 'яжяж1', 'пароль']      # cp1251: non-ASCII n-grams in every OMEN file
         tf = os.path.join(root, 'train.txt')
         with open(tf, 'wb') as f:
             f.write(('\n'.join(pws) + '\n').encode(enc))
@@ -239,6 +239,16 @@ def run(ctx):
                          'witness': {'passwords': pws, 'encoding': enc}})
             continue
         if okg:
+            # what the guesser loaded against the text of the files, read here in the ruleset's encoding: every n-gram the guesser
+            # holds is a string over the loaded alphabet of the right length, and the three level files list the same contexts
+            alpha = set(g['alphabet'])
+            bad = [s for l, lst in g['ip'].items() for s in lst if len(s) != g['ngram'] - 1 or not set(s) <= alpha]
+            bad += [pre + ch for pre, d in g['cp'].items() for l, chs in d.items() for ch in chs
+                    if len(pre) != g['ngram'] - 1 or len(ch) != 1 or not set(pre + ch) <= alpha]
+            ips = {s for l, lst in g['ip'].items() for s in lst}
+            if bad or not set(g['cp']) <= ips:
+                viol.append({'property': 'C07', 'kind': 'omen-ngrams-not-over-alphabet', 'examples': bad[:4],
+                             'contexts_without_ip_entry': sorted(set(g['cp']) - ips)[:4], 'witness': {'passwords': pws, 'encoding': enc}})
             gip = {s: l for l, lst in g['ip'].items() for s in lst}
             gcp = {pre + ch: l for pre, d in g['cp'].items() for l, chs in d.items() for ch in chs}
             if gip != sc.ip or gcp != sc.cp or sc.ngram != g['ngram']:
